@@ -745,6 +745,18 @@ def c16_mirror(ctx):
         ok4 = "broken_pipe" in refs and "deadline" in refs and "timed_out" in refs
         ctx.ob("C16.G6", tag + ": loop skeleton", "poll for out|err, a broken pipe from poll ends the drain with success, the deadline event "
                "with timed_out, then one read of the selected stream", ok3 and ok4, {"poll_events": ev_arg})
+        # C16.G7 (C++ mirror): the buffer given to process.read and to the sinks is an automatic object of this instantiation
+        for r in reads:
+            b = cstrip(r["c"][2]) if len(r["c"]) > 2 else None
+            while b is not None and b["k"] in ("UnaryOperator", "ArraySubscriptExpr", "MemberExpr") and b.get("c"):
+                b = cstrip(b["c"][0])
+            vds = [x for x in F.walk() if x["k"] == "VarDecl" and b is not None and b.get("did") is not None and x.get("did") == b.get("did")]
+            if b is None or b["k"] != "DeclRefExpr" or (not vds and b.get("dk") not in ("global", "staticlocal")):
+                continue  # a parameter or member: storage decided by the caller, no verdict from this rule
+            shared = b.get("dk") in ("global", "staticlocal") or any(v.get("static") or v.get("tls") or v.get("extern") for v in vds)
+            ctx.ob("C16.G7", tag + ": storage of the chunk buffer", "the buffer process.read fills and the sinks are handed is an automatic "
+                   "object of this call: a sink may drain another process and drains run concurrently on different objects",
+                   not shared, {"buffer": b.get("name"), "storage": "static" if shared else "automatic"})
     runs = [F for F in prog.funcs_all if F.qname == "reproc::run" and len(F.params) == 4]
     for F in runs[:1]:
         seq = []
